@@ -21,6 +21,8 @@ pub struct Ctx {
     pub args: Vec<String>,
     /// set while the companion workloads (other properties' quick-tier workloads) run
     pub lite: std::sync::atomic::AtomicBool,
+    /// mixed into the seeds of the work units: the thorough tier repeats a workload with fresh draws
+    pub salt: AtomicU64,
 }
 
 impl Ctx {
@@ -77,7 +79,7 @@ pub fn par_units(ctx: &Ctx, label: &str, n: u64, f: impl Fn(u64, &mut Rng, &mut 
                     if i >= n {
                         break;
                     }
-                    let mut r = Rng::derive(ctx.seed, label, i);
+                    let mut r = Rng::derive(ctx.seed ^ ctx.salt.load(Ordering::Relaxed).wrapping_mul(0x9E37_79B9_7F4A_7C15), label, i);
                     f(i, &mut r, &mut col, &slot);
                 }
                 slot.tid.store(0, Ordering::Relaxed);
